@@ -211,7 +211,7 @@ func runeFamily(c *core.Ctx) {
 }
 
 func run(c *core.Ctx) {
-	c.Rule = "messages = all slot lists of length <=k over the slot alphabet of each type (groups, extensions, maps, oneofs, unknown fields, NaN/-0/inf/denormal floats, non-ASCII and control-character strings, arbitrary bytes); each is written with 5 option sets (Multiline, Indent, EmitASCII) and parsed back; the result must be proto.Equal to the original with unknown fields removed recursively and have the same canonical snapshot (float bits identical, NaNs identified). Floats: every float32 bit pattern (thorough: all 2^32; quick: stride 61 plus a full structured exponent x mantissa set) and all doubles with <=2 set / cleared mantissa bits per exponent go through the text encoder and decoder and must come back bit-identical. Any with a caller-supplied Resolver: an Any whose payload type and three extensions (int32, repeated string, message) exist only in a private protoregistry.Types (dynamic types, descriptor not in the global registry): every payload of <=2 setters x 5 option sets round-trips to an equal payload"
+	c.Rule = "messages = all slot lists of length <=k over the slot alphabet of each type (groups, extensions, maps, oneofs, unknown fields, NaN/-0/inf/denormal floats, non-ASCII and control-character strings, arbitrary bytes); each is written with 5 option sets (Multiline, Indent, EmitASCII) and parsed back (into a fresh destination, or under EmitASCII into one that already holds another message); the result must be proto.Equal to the original with unknown fields removed recursively and have the same canonical snapshot (float bits identical, NaNs identified). Floats: every float32 bit pattern (thorough: all 2^32; quick: stride 61 plus a full structured exponent x mantissa set) and all doubles with <=2 set / cleared mantissa bits per exponent go through the text encoder and decoder and must come back bit-identical. Any with a caller-supplied Resolver: an Any whose payload type and three extensions (int32, repeated string, message) exist only in a private protoregistry.Types (dynamic types, descriptor not in the global registry): every payload of <=2 setters x 5 option sets round-trips to an equal payload"
 	c.Exhaustive = true
 	floatSweep(c)
 	runeFamily(c)
@@ -260,6 +260,11 @@ func run(c *core.Ctx) {
 							}
 						}
 						m2 := f.MT.New()
+						if o.EmitASCII && len(alpha) > 0 {
+							// Unmarshal replaces the destination's content: under EmitASCII the
+							// destination already holds another message
+							m2 = f.Build([]*univ.Slot{alpha[len(alpha)/2]})
+						}
 						if err := (prototext.UnmarshalOptions{AllowPartial: true, Resolver: resolver(f)}).Unmarshal(tb, m2.Interface()); err != nil {
 							c.Violation(fmt.Sprintf("prototext.Unmarshal rejects Marshal output %s type=%s case=%s", oname(o), f.Name, name), map[string]any{"err": err.Error(), "text": string(tb)})
 							continue
